@@ -173,14 +173,14 @@ func observeSplit(c *fw.Case, entry, text string, req int, refByte byte) *splitO
 			o.repNum = int(f)
 		case "Build-CMPP":
 			var f datacoding.ProtocolDataCoding
-			o.parts, f, o.err = protocol.NewBatchDataCodingEncoder().Protocol(protocol.CMPP).Content(text, refByte).
+			o.parts, f, o.err = builderFor(c, "CMPP").Protocol(protocol.CMPP).Content(text, refByte).
 				DataCodings([]datacoding.ProtocolDataCoding{datacoding.CMPPDataCoding(req)}).Build(ctx)
 			if cf, ok := f.(datacoding.CMPPDataCoding); ok {
 				o.repNum = int(cf)
 			}
 		case "Build-SMPP":
 			var f datacoding.ProtocolDataCoding
-			o.parts, f, o.err = protocol.NewBatchDataCodingEncoder().Protocol(protocol.SMPP).Content(text, refByte).
+			o.parts, f, o.err = builderFor(c, "SMPP").Protocol(protocol.SMPP).Content(text, refByte).
 				DataCodings([]datacoding.ProtocolDataCoding{datacoding.SMPPDataCoding(req)}).Build(ctx)
 			if sf, ok := f.(datacoding.SMPPDataCoding); ok {
 				o.repNum = int(sf)
@@ -199,6 +199,22 @@ func observeSplit(c *fw.Case, entry, text string, req int, refByte byte) *splitO
 		o.repKind, o.repKnown = smppKind(o.repNum)
 	}
 	return o
+}
+
+// reusedBuilders: one long-lived builder per protocol and worker process, used for half of the Build requests
+// (an application that keeps its builder); the other half gets a fresh one.
+var reusedBuilders = map[string]*protocol.BatchDataCodingEncoder{}
+
+func builderFor(c *fw.Case, proto string) *protocol.BatchDataCodingEncoder {
+	if c.R.Bool() {
+		return protocol.NewBatchDataCodingEncoder()
+	}
+	b := reusedBuilders[proto]
+	if b == nil {
+		b = protocol.NewBatchDataCodingEncoder()
+		reusedBuilders[proto] = b
+	}
+	return b
 }
 
 func (o *splitObs) ctx() string {
@@ -632,11 +648,21 @@ func boundaryText(r *fw.Rng, kind codingKind) (string, string) {
 	case kLatin1:
 		filler, multi = []rune("abcéèñü "), nil
 	case kUCS2:
-		filler, multi = []rune("a中é文"), []rune{0x1f600, 0x20000, 0x10ffff}
+		filler, multi = []rune("a中é文\ufffd"), []rune{0x1f600, 0x20000, 0x10ffff}
+		if r.Chance(1, 3) {
+			// variation selector, zero-width joiner, combining accent: emoji sequences put them right behind wide characters
+			filler = []rune("a中\ufe0f\u200d\u0301文")
+		}
 	case kGB:
 		filler, multi = []rune("ab1 "), []rune{'中', '文', 0x20000, 0x1f600, 0x00e9, 0x3000}
 	default:
 		filler, multi = []rune("abc123 @"), []rune("[]{}^~|\\€\f")
+		switch r.Intn(3) {
+		case 0: // basic characters that take two UTF-8 octets, and escapes as ordinary filler
+			filler = []rune("abé£Δñ12[]")
+		case 1: // escape-heavy: more septets than UTF-8 octets
+			filler = []rune("a[]{}|é^~")
+		}
 	}
 	unitOf := func(x rune) int {
 		u, _ := unitsOf(kind, string(x))
@@ -686,6 +712,14 @@ func boundaryText(r *fw.Rng, kind codingKind) (string, string) {
 			// escapes right at the single-SMS threshold as well
 			starts[single-1+r.Range(-1, 1)] = multi[r.Intn(len(multi))]
 		}
+	}
+	if len(multi) > 0 && r.Chance(1, 8) {
+		// the message ENDS with a multi-unit character that begins just before a part boundary
+		k := r.Range(1, 6)
+		m := multi[r.Intn(len(multi))]
+		u := unitOf(m)
+		target = k*per - r.Range(1, u-1) + u
+		starts = map[int]rune{target - u: m}
 	}
 	var rs []rune
 	pos := 0
@@ -761,12 +795,39 @@ func splitCase(c *fw.Case, judges ...func(*fw.Case, *splitObs)) {
 		rq.entry = rq.entry[6:]
 	}
 	refByte := byte(r.Pick(0, 1, 107, 255, int(r.U32()&0xff)))
+	if prevSplitText != "" && r.Chance(1, 6) {
+		// the same text again with another reference byte (bulk sending)
+		text, rq = prevSplitText, prevSplitReq
+		refByte = byte(r.U32())
+	}
+	prevSplitText, prevSplitReq = text, rq
 	o := observeSplit(c, rq.entry, text, rq.num, refByte)
+	// parts handed out by the previous call stay what they were
+	for i, h := range heldSplit {
+		if !bytes.Equal(h.live, h.snap) {
+			c.Failf("parts-changed-by-later-call/"+h.name, "part %d returned by the previous split call (%s) now reads %s, was %s", i+1, h.name, hx(firstK(h.live, 24)), hx(firstK(h.snap, 24)))
+			break
+		}
+	}
+	heldSplit = heldSplit[:0]
+	if o.err == nil && len(o.parts) <= 40 {
+		for _, p := range o.parts {
+			heldSplit = append(heldSplit, heldPacket{rq.entry, p, append([]byte(nil), p...)})
+		}
+	}
 	for _, j := range judges {
 		j(c, o)
 	}
 	c.Sample(2, map[string]any{"entry": rq.entry, "requested": rq.num, "ref": refByte, "text_class": class, "text_utf8_octets": len(text), "parts": len(o.parts), "reported": o.repNum, "err": fmt.Sprint(o.err), "first_part": hx(firstPart(o.parts))})
 }
+
+// heldSplit: the parts of the previous case (one goroutine per worker process).
+var heldSplit []heldPacket
+
+var (
+	prevSplitText string
+	prevSplitReq  splitReq
+)
 
 func firstPart(p [][]byte) []byte {
 	if len(p) == 0 {
